@@ -29,6 +29,37 @@ func opIdx(a []string) string {
 	return "ok " + hashShards(sh[d:])
 }
 
+// idxbad <opts> <d> <p> <size> <seed> <k> <len> : parity holds the encoding of the data set; then data shard k is
+// delivered with length <len> (its first bytes, or extended with non-zero bytes).  A length other than the parity size
+// must be rejected with ErrShardSize and must leave the parity untouched.
+func opIdxBad(a []string) string {
+	opts, d, p, size, seed := a[0], atoi(a[1]), atoi(a[2]), atoi(a[3]), atou(a[4])
+	k, n := atoi(a[5]), atoi(a[6])
+	enc, err := newEnc("default", d, p, opts)
+	if err != nil {
+		return "err " + errClass(err)
+	}
+	sh := mkShards(d, p, size, seed)
+	if err := enc.Encode(sh); err != nil {
+		return "err(encode) " + errClass(err)
+	}
+	before := hashShards(sh[d:])
+	in := make([]byte, n)
+	copy(in, sh[k])
+	for i := size; i < n; i++ {
+		in[i] = byte(0xA5 ^ i)
+	}
+	err = enc.EncodeIdx(in, k, sh[d:])
+	state := "unchanged"
+	if hashShards(sh[d:]) != before {
+		state = "changed"
+	}
+	if err != nil {
+		return "err " + errClass(err) + " " + state
+	}
+	return "ok " + state
+}
+
 // upd <opts> <d> <p> <size> <seed> <changed list> <nil list> [<newlen>]
 // data set from seed; parity encoded; changed shards get new contents (seed+1); shards listed in <nil list>
 // (unchanged ones) are passed as nil.  Optional newlen gives the first changed shard a different length.
@@ -134,6 +165,7 @@ func opUpdGuard(a []string) string {
 }
 
 func init() {
+	extraOps["idxbad"] = opIdxBad
 	extraOps["idx"] = opIdx
 	extraOps["upd"] = opUpd
 	extraOps["updguard"] = opUpdGuard
